@@ -414,6 +414,37 @@ pub fn c01_cases(rng: &mut Rng, tier: &str) -> (Vec<Case>, bool) {
             cases.push(case_from(w, vec!["err-then-idle".into()], "impl-only:operator-chain".into(), true, format!("{} with 200000 x {:?}", stmt, op)));
         }
     }
+    // ... and flat chains of every BINARY operator (a tier written as recursion instead of a loop costs a native frame per operator)
+    for op in [" OR ", " AND ", " = ", " < ", " + ", " - ", " * ", " / ", " ^ ", " <> ", " >= "] {
+        for stmt in ["PRINT {}", "10 X = {}"] {
+            let mut w = Walk::new(false, false);
+            let chain = vec!["1"; 100_000].join(op);
+            let text = stmt.replace("{}", &chain);
+            w.start(&text);
+            if text.starts_with("10") {
+                w.start("RUN");
+            }
+            let mut nr = 0;
+            w.drive(&[], &mut nr, 5, false);
+            w.start("PRINT 7");
+            w.op("take");
+            cases.push(case_from(w, vec!["err-then-idle".into()], "impl-only:binary-operator-chain".into(), true, format!("{} with 100000 operands joined by {:?}", stmt, op)));
+        }
+    }
+    // ... and runs of empty statements
+    for text in [format!("PRINT 1{}", ":".repeat(400_000)), format!("10 PRINT 1{}PRINT 2", ":".repeat(400_000)), format!("IF 1 THEN {}PRINT 3", ": ".repeat(100_000))] {
+        let mut w = Walk::new(false, false);
+        w.start(&text);
+        if text.starts_with("10") {
+            w.start("RUN");
+        }
+        let mut nr = 0;
+        w.drive(&[], &mut nr, 5, false);
+        w.op("break");
+        w.start("PRINT 7");
+        w.op("take");
+        cases.push(case_from(w, vec!["err-then-idle".into()], "impl-only:colon-run".into(), true, format!("{}…", text.chars().take(20).collect::<String>())));
+    }
     // nesting that passes through a user-function call (argument and body), around the cap
     for k in [40usize, 45, 46, 47, 48, 49] {
         for m in [0usize, 1, 2, 10, 600] {
@@ -623,6 +654,28 @@ pub fn c16_cases(rng: &mut Rng, tier: &str) -> (Vec<Case>, bool) {
             }
         }
     }
+    // loops left open at the prompt count: a program entered by GOTO / GOSUB / CONT (no RUN, no edit in between) that opens
+    // 32 - k .. 32 loops of its own on top of k prompt loops meets the same cap
+    for k in [1usize, 2, 5] {
+        for own in [32 - k, 32 - k + 1, 32] {
+            for enter in ["GOTO 10", "GOSUB 10"] {
+                let mut w = Walk::new(false, false);
+                let fors: Vec<String> = (0..own).map(|i| format!("FOR {}{} = 1 TO 2", (b'A' + (i / 10) as u8) as char, i % 10)).collect();
+                w.start(&format!("10 {}", fors.join(" : ")));
+                w.start("20 PRINT \"opened\"");
+                for j in 0..k {
+                    w.start(&format!("FOR Z{} = 1 TO 2", j));
+                }
+                w.start(enter);
+                let mut nr = 0;
+                w.drive(&[], &mut nr, 200, true);
+                w.op("snap");
+                let mut checks: Vec<String> = vec!["snap-caps".into(), "err-then-idle".into()];
+                checks.push(if k + own > 32 { "some-call-fails OutOfMemory.StackOverflow".into() } else { "no-call-fails OutOfMemory".into() });
+                cases.push(case_from(w, checks, "prompt-loops-plus-program-loops".into(), true, format!("{} loops at the prompt, {}, program opens {}", k, enter, own)));
+            }
+        }
+    }
     // stopped exactly at / just below the cap, then one more frame from the PROMPT (the suspended program's frames are kept
     // at a breakpoint): GOSUB and FN calls typed in direct mode meet the same cap
     for depth in [30usize, 31, 32] {
@@ -714,6 +767,29 @@ pub fn c10_cases(rng: &mut Rng, tier: &str) -> (Vec<Case>, bool) {
         &["10 FOR I = 1 TO 3", "20 INPUT A(I)", "30 NEXT I", "40 PRINT A(1); \"/\"; A(2); \"/\"; A(3)"],
         &["10 INPUT P(1) : INPUT N$ : INPUT Q(2, 2)", "20 PRINT P(1); N$; Q(2, 2); P(2); A(3)"],
     ];
+    // a run that dies of a cap (the 33rd frame is a function call, a GOSUB, a FOR) leaves nothing behind either: the same
+    // program run again behaves like the first time
+    for prog in [
+        &["10 DEF F(X) = X", "20 DEF G(Y) = X + Y", "30 PRINT G(1)", "40 N = N + 1", "50 IF N = 33 THEN PRINT F(7)", "60 GOSUB 40"][..],
+        &["10 DEF F(X) = X + 1", "20 DEF G(Y) = X + Y", "30 PRINT G(1)", "40 N = N + 1", "50 IF N = 32 THEN PRINT F(F(7))", "60 GOSUB 40"][..],
+        &["10 DEF G(Y) = Q + Y", "20 PRINT G(1)", "30 DEF R(Q) = R(Q + 1)", "40 PRINT R(5)"][..],
+        &["10 DEF G(Y) = A0 + Y + I", "20 PRINT G(1)", "30 FOR I = 1 TO 2 : GOSUB 30"][..],
+    ] {
+        let mut w = Walk::new(false, false);
+        for l in prog.iter() {
+            w.start(l);
+        }
+        let mut ranges = vec![];
+        for _ in 0..2 {
+            let a = w.ops.len();
+            w.start("RUN");
+            let mut nr = 0;
+            w.drive(&[], &mut nr, 400, false);
+            w.state();
+            ranges.push((a, w.last()));
+        }
+        cases.push(case_from(w, vec![format!("transcript-eq {}-{} {}-{}", ranges[0].0, ranges[0].1, ranges[1].0, ranges[1].1), "err-then-idle".into()], "run-after-a-run-that-hit-a-cap".into(), true, prog.join(" | ")));
+    }
     for k in 0..n {
         let mut p = if k % 5 == 4 {
             let lines = rng.pick(shaped);
@@ -1249,6 +1325,31 @@ pub fn c17_cases(rng: &mut Rng, tier: &str) -> (Vec<Case>, bool) {
         checks.push(format!("trace-lines-exist {}-{}", ranges[3].0, ranges[3].1));
         cases.push(case_from(w, checks, format!("{}{}", if via_command { "cmd:" } else { "api:" }, feature_tag(&p)), true, p.text().replace('\n', " | ")));
     }
+    // a warning exactly when an undeclared variable is read or an array that does not exist yet is touched - programs
+    // whose number of warnings is known in advance (a refused INPUT reply touches nothing)
+    for (prog, replies, want) in [
+        (&["10 INPUT A(3)", "20 PRINT A(3)"][..], &["SEVEN", "7"][..], 1usize),
+        (&["10 INPUT A(3)", "20 PRINT A(3)"][..], &["7"][..], 1),
+        (&["10 INPUT A(3)", "20 PRINT A(3)"][..], &["x", "y", "z", "7"][..], 1),
+        (&["10 DIM A(5)", "20 INPUT A(3)", "30 PRINT A(3)"][..], &["SEVEN", "7"][..], 0),
+        (&["10 INPUT N", "20 PRINT N; M"][..], &["q", "1"][..], 1),
+        (&["10 READ B(1), B(2)", "20 DATA x, 2"][..], &[][..], 0),
+        (&["10 READ B(1), B(2)", "20 DATA 1, 2"][..], &[][..], 1),
+        (&["10 X = Y + Z(1) + Z(2)", "20 PRINT X; Y"][..], &[][..], 3),
+    ] {
+        let mut w = Walk::new(true, false);
+        for l in prog.iter() {
+            w.start(l);
+        }
+        let a = w.ops.len();
+        w.start("RUN");
+        let rs: Vec<String> = replies.iter().map(|r| r.to_string()).collect();
+        let mut nr = 0;
+        w.drive(&rs, &mut nr, 40, false);
+        w.state();
+        let b = w.last();
+        cases.push(case_from(w, vec![format!("range-count {}-{} W {}", a, b, want)], "warnings-counted".into(), true, format!("{} || replies {:?}", prog.join(" | "), replies)));
+    }
     (cases, false)
 }
 
@@ -1368,6 +1469,33 @@ pub fn c09_cases(rng: &mut Rng, tier: &str) -> (Vec<Case>, bool) {
             cases.push(case_from(w, vec![format!("turns-at-least {}-{} {}", a, b, want), "calls-bounded 2".into()], "counted-statements".into(), true, format!("{} || {}", prog.join(" | "), typed.join(" | "))));
         }
     }
+    // a one-statement line typed at a breakpoint inside a loop / subroutine - NEXT that goes round, RETURN, GOTO into the
+    // program - runs THAT statement and hands control back: the program's next statement needs the next call
+    for (prog, typed) in [
+        (&["10 FOR I = 1 TO 3", "20 PRINT \"BODY\"; I", "30 STOP", "40 NEXT I", "50 PRINT \"DONE\""][..], "NEXT I"),
+        (&["10 GOSUB 100", "20 PRINT \"BACK\"", "30 END", "100 STOP", "110 RETURN"][..], "RETURN"),
+        (&["10 STOP", "20 PRINT \"TWENTY\"", "30 PRINT \"THIRTY\""][..], "GOTO 20"),
+        (&["10 FOR I = 1 TO 2", "20 STOP", "30 PRINT \"B\"; I : NEXT I"][..], "NEXT I"),
+    ] {
+        for tt in [false, true] {
+            let mut w = Walk::new(false, tt);
+            for l in prog.iter() {
+                w.start(l);
+            }
+            w.start("RUN");
+            let mut nr = 0;
+            w.drive(&[], &mut nr, 30, false);
+            w.op("take");
+            w.start(typed);
+            let ti = w.last();
+            w.op("take");
+            let take_idx = w.last();
+            w.op("snap");
+            w.drive(&[], &mut nr, 30, false);
+            // the typed statement itself prints nothing and is not a numbered line: no Print, no Trace record in its call
+            cases.push(case_from(w, vec![format!("reply-is {} ok", ti), format!("take-lacks-kind {} P", take_idx), format!("take-lacks-kind {} T", take_idx), "calls-bounded 2".into()], "one-statement-at-a-breakpoint".into(), true, format!("{} || {}", prog.join(" | "), typed)));
+        }
+    }
     // a prompt printed right before the INPUT on the same line, and replies that are refused: every host call - also the
     // one that hands over an unsuitable reply - runs ONE statement (the INPUT), never the prompt again
     let prompted: &[&[&str]] = &[
@@ -1403,6 +1531,8 @@ const PURE_INSPECTIONS: &[&str] = &[
     // statements that are refused or do nothing at the prompt: a DEF typed in direct mode (ILLEGAL DIRECT) for a function the
     // program defines, with other parameter names; END reached by an immediate line
     "DEF FNA(ZZ) = 1", "DEF FNR(Q) = 5", "DEF FNS(A, B) = 1", "DEF FNB(X1) = X1", "END", "IF 1 THEN END",
+    // a syntax error INSIDE a built-in call (before its closing parenthesis): nothing was computed, nothing may have moved
+    "PRINT RND(1", "PRINT RND(7, 1)", "PRINT RND(2 \"A\")", "PRINT ABS(1", "PRINT INT(1, 2)", "PRINT 1 + RND(3;", "PRINT RND(",
 ];
 
 /// assigning at a STOP == the assignment written in place of the STOP (the value assigned at the prompt, or typed in as the
@@ -1623,6 +1753,17 @@ pub fn c08_cases(rng: &mut Rng, tier: &str) -> (Vec<Case>, bool) {
     let reply_texts: &[&str] = &["5", "0", "-2.5", "hello", "", " ", "1,2", "3:4", "\"q, r\"", " 7 ", "x", "1e3", "12abc", "\"a\" ,", ",", "é", "  \"sp\"  ", "1 2", ".", "inf", "nan",
         // surplus behind an unquoted colon, after text whose byte length exceeds its character count
         "日本語:x", "😊:ab", "é:", "\"über:über\":zz", "\u{3000}5:6", "\u{a0}5:", "café:crème", "日本語", "ééé:1", "\u{2003}7\u{2003}:\u{2003}"];
+    // replies of any length: one item of more than a thousand characters (letters, emoji, a quoted text, a number spelled with
+    // 1200 zeros and an exponent), a short item followed by thousands of blanks
+    let long_a = "a".repeat(1025);
+    let long_e = "😊".repeat(1500);
+    let long_q = format!("\"{}\"", "q r,".repeat(700));
+    let long_n = format!("1{}e-1198", "0".repeat(1200));
+    let long_b = format!("7{}", " ".repeat(2000));
+    let long_c = format!("{},x", "b".repeat(3000));
+    let mut all_replies: Vec<&str> = reply_texts.to_vec();
+    all_replies.extend([long_a.as_str(), long_e.as_str(), long_q.as_str(), long_n.as_str(), long_b.as_str(), long_c.as_str()]);
+    let reply_texts: &[&str] = &all_replies;
     for _ in 0..n {
         let (tmpl, tag) = rng.pick(placements);
         let numeric = rng.chance(2, 3);
